@@ -233,7 +233,10 @@ class Packetizer(LiteXModule):
         )
         if not aligned:
             header_offset_multiplier = 1 if header_words == 1 else 2
-            self.sync += If(source.ready, sink_d.eq(sink))
+            self.sync += [
+                If(sink.valid & sink.ready, sink_d.eq(sink)),
+                If(source.valid & source.ready & source.last, sink_d.last.eq(0)),
+            ]
             fsm.act("UNALIGNED-DATA-COPY",
                 source.valid.eq(sink.valid | sink_d.last),
                 source.last.eq(sink_d.last),
